@@ -18,6 +18,7 @@ package decryptor
 
 import (
 	"context"
+	"encoding/hex"
 	"fmt"
 
 	"github.com/sirupsen/logrus"
@@ -132,6 +133,14 @@ func (encryptor *HashQuery) OnQuery(ctx context.Context, query mysql.OnQueryObje
 				},
 			}
 
+			// the literal is re-spelled as a 0x.. number: decode it in its OWN spelling first (the
+			// digits of X'..' are not the value, and a text that starts with "0x" is not a number)
+			if raw, err := encryptor.coder.Decode(rVal, item.Setting); err == nil {
+				spelled := make([]byte, 2+hex.EncodedLen(len(raw)))
+				copy(spelled, "0x")
+				hex.Encode(spelled[2:], raw)
+				rVal.Val = spelled
+			}
 			rVal.Type = sqlparser.HexNum
 		}
 
